@@ -67,7 +67,7 @@ static void hit(const char *name, const char *p, const char *q) {
     long k = __atomic_add_fetch(&counter, 1, __ATOMIC_SEQ_CST);
     if (log_fd >= 0) {
         char line[2 * PATH_MAX + 128];
-        int n = snprintf(line, sizeof line, "%ld\t%s\t%s\t%s\n", k, name, p ? p : "", q ? q : "");
+        int n = snprintf(line, sizeof line, "%ld\t%s\t%s\t%s\t%ld\n", k, name, p ? p : "", q ? q : "", (long)syscall(SYS_gettid));
         if (n > 0) syscall(SYS_write, log_fd, line, (size_t)n);
     }
     if (crash_at > 0 && k == crash_at) {
